@@ -82,10 +82,13 @@ Lemma in_flatten {A} (x : A) l : In x (flatten_opts l) -> In (Some x) l.
 Proof. induction l as [|[y|] l IH]; cbn; auto. intros [->|H]; auto. Qed.
 Theorem alt_written a v : alt_dom a -> is_pre v = true -> r_satisfies (compile_alt a) v = true -> written_in a v.
 Proof.
-  intros Hd Pv S. destruct a as [lo hi|cs]; cbn [compile_alt written_in alt_dom] in *.
+  intros Hd Pv S. destruct a as [lo hi|[|c0 cs0]]; [| |remember (c0 :: cs0) as cs eqn:Ecs; rewrite (compile_alt_set cs) in S by (subst; discriminate); clear Ecs c0 cs0];
+    cbn [compile_alt written_in alt_dom] in *.
   - destruct Hd as [(Nl & _) (Nh & _)]. destruct (hyphen_tbl lo hi) as [bs|] eqn:E; [|discriminate]. cbn in S. rewrite orb_false_r in S.
     unfold bs_satisfies in S. apply andb_true_iff in S as [W G]. rewrite gate_tags, Pv in G. cbn in G.
     eapply hyphen_written; eauto.
+  - (* nothing written: [*] admits no prerelease *)
+    exfalso. cbn in S. rewrite orb_false_r in S. unfold bs_satisfies in S. apply andb_true_iff in S as [W G]. rewrite gate_tags, Pv in G. cbn in G. discriminate G.
   - pose proof (comps_of_wf cs) as Wf. fold (comps_of cs) in S.
     assert (Ne : comps_of cs <> []) by (intro E0; rewrite E0 in S; discriminate).
     change (r_satisfies (and_fold (comps_of cs)) v) with (sat_list (and_fold (comps_of cs)) v) in S.
@@ -136,7 +139,8 @@ Qed.
 Theorem alt_written_decides a v : alt_dom a -> version_dom v -> written_in a v ->
   r_satisfies (compile_alt a) v = r_within (compile_alt a) v.
 Proof.
-  intros Hd Dv Hw. destruct a as [lo hi|cs]; cbn [compile_alt written_in alt_dom] in *.
+  intros Hd Dv Hw. destruct a as [lo hi|[|c0 cs0]]; [|destruct Hw as (f & p & [] & _)|remember (c0 :: cs0) as cs eqn:Ecs; rewrite (compile_alt_set cs) by (subst; discriminate); clear Ecs c0 cs0];
+    cbn [compile_alt written_in alt_dom] in *.
   - destruct Hd as [Dl Dh]. pose proof (hyphen_row lo hi v Dl Dh) as R. unfold row_opt in R.
     destruct (hyphen_tbl lo hi) as [bs|]; [|reflexivity]. destruct R as (_ & _ & HT). cbn. rewrite !orb_false_r.
     unfold bs_satisfies. destruct (within bs v) eqn:W; [|reflexivity]. rewrite gate_tags, (HT eq_refl).
